@@ -53,9 +53,7 @@ Section Max.
   Proof. unfold ll_mut. now rewrite map_length, seq_length. Qed.
 
   Lemma ll_mut_nth e p y t : (t <= y)%nat -> nth t (ll_mut LinR pois e p y) 0 = pois e p t.
-  Proof. intro H. unfold ll_mut.
-    rewrite (nth_indep _ 0 (pois e p 0%nat)) by (rewrite map_length, seq_length; lia).
-    rewrite (map_nth (pois e p)). rewrite seq_nth by lia. reflexivity. Qed.
+  Proof. intro H. unfold ll_mut. now rewrite nth_map_seq by lia. Qed.
 
   Lemma ll_mut_pos e p y x : In x (ll_mut LinR pois e p y) -> 0 < x.
   Proof. unfold ll_mut. intro H. apply in_map_iff in H. destruct H as (t & <- & _). apply pois_pos. Qed.
@@ -124,26 +122,24 @@ Section Max.
       unfold ll0. rewrite ll_mut_nth by exact Ht. unfold prodpois. cbn [fold_right].
       fold ypi0. toR. field. unfold ll0 in HK0. lra. }
     pose proof (max_step_inv mx rest [e0] ypi0 (vratio LinR ll0 (npmax LinR ll0)) Hp1 Hp2) as Hinv.
-    destruct (fold_left (max_step mx) rest (ypi0, vratio LinR ll0 (npmax LinR ll0))) as [ypi result].
-    cbv beta iota in Hinv. destruct Hinv as (Hypi & Hlen & K & HK & Hres).
+    toR. match type of Hinv with match ?X with _ => _ end => destruct X as [ypi result] end.
+    destruct Hinv as (Hypi & Hlen & K & HK & Hres).
     destruct (ins c) as [iv|] eqn:Hiv; [|discriminate]. exists iv. split; [reflexivity|].
     inversion H; subst mx'; clear H. f_equal.
     assert (HypiG : (ypi < G)%nat).
     { rewrite Hypi. pose proof (minpar_le mx rest ypi0). pose proof (HmxG (e_parent e0)). unfold ypi0 in *. lia. }
     pose proof (ins_len _ _ Hiv) as Hlv.
     replace (minpar mx e0 rest) with ypi by (now rewrite Hypi).
-    rewrite <- (argmax_scale K) by exact HK. f_equal.
+    rewrite <- (argmax_scale K (map (score iv mx (e0 :: rest)) (seq 0 (ypi + 1)))) by exact HK. f_equal.
     apply (nth_ext _ _ 0 0).
-    - rewrite vcomb_length, !firstn_length, !map_length, seq_length. lia.
-    - intros t Ht. rewrite vcomb_length, !firstn_length in Ht.
+    - rewrite (vcomb_length LinR), !firstn_length, !map_length, seq_length. lia.
+    - intros t Ht. rewrite (vcomb_length LinR), !firstn_length in Ht.
       assert (Ht' : (t <= ypi)%nat) by lia.
-      rewrite vcomb_nth by (rewrite firstn_length; lia).
+      rewrite (vcomb_nth LinR) by (rewrite firstn_length; lia).
       rewrite !nth_firstn_lt by lia.
       rewrite Hres by exact Ht'.
-      rewrite (nth_indep _ 0 ((fun x => x / K) 0)) by (rewrite !map_length, seq_length; lia).
-      rewrite (map_nth (fun x => x / K)).
-      rewrite (nth_indep _ 0 (score iv mx (e0 :: rest) 0%nat)) by (rewrite map_length, seq_length; lia).
-      rewrite (map_nth (score iv mx (e0 :: rest))). rewrite seq_nth by lia. cbn [Nat.add].
+      rewrite (nth_map_lt (fun x => x / K) _ 0) by (rewrite map_length, seq_length; lia).
+      rewrite nth_map_seq by lia. cbn [Nat.add].
       unfold score. cbn [app]. toR. field. lra. Qed.
 
   Lemma max_group_fixed mx c es mx' : fixed c = true -> max_group mx (c, es) = Some mx' -> mx' = mx.
@@ -152,7 +148,7 @@ Section Max.
   (** score only looks at the parents *)
   Lemma prodpois_ext mx mx' es t : (forall e, In e es -> mx (e_parent e) = mx' (e_parent e)) ->
     prodpois mx es t = prodpois mx' es t.
-  Proof. induction es as [|e r IH]; intro H; cbn; [reflexivity|].
+  Proof. induction es as [|e r IH]; intro H; unfold prodpois in *; cbn [fold_right]; [reflexivity|].
     rewrite (H e) by now left. rewrite IH; [reflexivity|]. intros x Hx. apply H. now right. Qed.
 
   Lemma minpar_ext mx mx' e0 rest : (forall e, In e (e0 :: rest) -> mx (e_parent e) = mx' (e_parent e)) ->
@@ -177,9 +173,8 @@ Section Max.
     rule_holds mx g -> rule_holds mx' g.
   Proof. intros Hp Hc. unfold rule_holds. destruct (snd g) as [|e0 rest]; [trivial|].
     intros H Hfx. destruct (H Hfx) as (iv & Hiv & E). exists iv. split; [exact Hiv|].
-    rewrite <- Hc, E. f_equal.
-    - apply map_ext_in. intros t _. unfold score. f_equal. now apply prodpois_ext.
-    - f_equal. f_equal. now apply minpar_ext. Qed.
+    rewrite <- Hc, E. rewrite (minpar_ext mx mx' e0 rest Hp). f_equal.
+    apply map_ext_in. intros t _. unfold score. f_equal. now apply prodpois_ext. Qed.
 
   Lemma outside_order_later allc : forall gs seen, outside_order allc seen gs ->
     forall g, In g gs -> ~ In (fst g) seen.
@@ -197,7 +192,7 @@ Section Max.
     (forall g, In g gs -> rule_holds mx' g) /\
     (forall g e, In g gs -> fixed (fst g) = false -> In e (snd g) -> (mx' (fst g) <= mx' (e_parent e))%nat).
   Proof. induction gs as [|[c es] r IH]; intros seen mx mx' Hord Hallc HG H; cbn [Discrete.max_groups] in H.
-    - inversion H; subst. repeat split; try tauto; try (intros ? []); try (intros ? ? []). exact HG.
+    - inversion H; subst. split; [tauto|]. split; [exact HG|]. split; [intros ? []|intros ? ? []].
     - destruct (max_group mx (c, es)) as [m1|] eqn:Hg; [|discriminate].
       destruct Hord as (Hnseen & Hpar & Hord).
       assert (Hm1 : (forall u, u <> c -> m1 u = mx u) /\ (forall u, (m1 u < G)%nat) /\
@@ -223,9 +218,8 @@ Section Max.
               pose proof (minpar_le mx rest (mx (e_parent e0))). pose proof (HG (e_parent e0)).
               unfold minpar in Hlt. lia.
             * unfold rule_holds. cbn [fst snd]. intros _. exists iv. split; [exact Hiv|].
-              rewrite updf_same. unfold a. f_equal.
-              -- apply map_ext_in. intros t _. unfold score. f_equal. apply prodpois_ext. exact Hsame.
-              -- f_equal. f_equal. apply minpar_ext. exact Hsame.
+              rewrite updf_same. rewrite <- (minpar_ext mx (updf mx c a) e0 rest Hsame). unfold a at 1. f_equal.
+              apply map_ext_in. intros t _. unfold score. f_equal. apply prodpois_ext. exact Hsame.
             * intros _ e He. rewrite updf_same. rewrite <- (Hsame e He).
               assert (minpar mx e0 rest <= mx (e_parent e))%nat.
               { unfold minpar. destruct He as [<-|He]; [apply minpar_le|now apply minpar_le_each]. }
@@ -243,7 +237,8 @@ Section Max.
         - apply (Hlater g Hgin). right. now rewrite E.
         - apply Hn. rewrite <- E. apply Hallc. now right. }
       split; [|split; [|split]].
-      + intros u Hu. cbn [map fst] in Hu. rewrite Hkeep by tauto. apply Hm1a. intro; subst; apply Hu; now left.
+      + intros u Hu. rewrite Hkeep by (intro Hin; apply Hu; right; exact Hin).
+        apply Hm1a. intro; subst; apply Hu; now left.
       + exact HG'.
       + intros g [<-|Hgin]; [|now apply Hrules].
         apply (rule_holds_ext m1); [| |exact Hm1rule]; cbn [fst snd].
@@ -322,3 +317,61 @@ Section Max.
       rewrite <- Ek in *. now apply Hords.
     - exact HG'. Qed.
 End Max.
+
+(** ** The statements of C13, with every definition spelled out *)
+Theorem C13_rule_lemma : forall (G : nat) (fixed : nat -> bool) (ins : nat -> option (list R))
+    (pois : nat -> nat -> nat -> R),
+  (forall e p t, 0 < pois e p t) -> (forall u iv, ins u = Some iv -> length iv = G) -> (0 < G)%nat ->
+  forall num_nodes es mx,
+  outside_order (map fst (groupby e_child es)) [] (groupby e_child es) ->
+  outside_maximization LinR fixed ins pois num_nodes es = Some mx ->
+  (forall r, (r < num_nodes)%nat -> (forall e, In e es -> e_child e <> r) -> fixed r = false ->
+     exists iv, ins r = Some iv /\ mx r = argmax LinR iv /\ first_max iv (mx r)) /\
+  (forall c e0 rest, In (c, e0 :: rest) (groupby e_child es) -> fixed c = false ->
+     exists iv, ins c = Some iv /\
+       let youngest := fold_left (fun m e => Nat.min m (mx (e_parent e))) rest (mx (e_parent e0)) in
+       let score := fun t => nth t iv 0 *
+            fold_right (fun e acc => pois (e_id e) (mx (e_parent e)) t * acc) 1 (e0 :: rest) in
+       first_max (map score (seq 0 (youngest + 1))) (mx c)) /\
+  (forall e, In e es -> fixed (e_child e) = false -> (mx (e_child e) <= mx (e_parent e))%nat) /\
+  (forall u, (mx u < G)%nat).
+Proof. intros G fixed ins pois Hpos Hlen HG n es mx Hord H.
+  destruct (maximization_spec G fixed ins pois Hpos Hlen HG n es mx Hord H) as (Hr & Hg & Ho & Hb).
+  split; [|split; [|split]]; [| |exact Ho|exact Hb].
+  - intros r Hrn Hnc Hfx. destruct (Hr r Hrn Hnc Hfx) as (iv & Hiv & E). exists iv.
+    split; [exact Hiv|]. split; [exact E|]. rewrite E. apply argmax_first_max.
+    intro; subst iv. pose proof (Hlen _ _ Hiv). cbn in *. lia.
+  - intros c e0 rest Hin Hfx. specialize (Hg _ Hin). unfold rule_holds in Hg. cbn [fst snd] in Hg.
+    destruct (Hg Hfx) as (iv & Hiv & E). exists iv. split; [exact Hiv|]. cbv zeta.
+    change (first_max (map (score pois iv mx (e0 :: rest)) (seq 0 (minpar mx e0 rest + 1))) (mx c)).
+    rewrite E. apply argmax_first_max. intro E0. apply (f_equal (@length _)) in E0.
+    rewrite map_length, seq_length in E0. cbn in E0. lia. Qed.
+
+(** posterior_mean is read off the grid *)
+Lemma posterior_mean_nth (P : Space) (tp : list (S P)) n mx u : (u < n)%nat ->
+  nth u (posterior_mean P tp n mx) (s_null P) = nth (mx u) tp (s_null P).
+Proof. intro H. unfold posterior_mean. now rewrite nth_map_seq. Qed.
+
+(** the pass returns a value whenever every non-fixed node has inside values
+    (so the hypothesis "[outside_maximization ... = Some mx]" of the theorems is satisfiable) *)
+Section Total.
+  Variable P : Space.
+  Variable fixed : nat -> bool.
+  Variable ins : nat -> option (list (S P)).
+  Variable pois : nat -> nat -> nat -> S P.
+  Hypothesis ins_total : forall u, fixed u = false -> ins u <> None.
+
+  Lemma max_roots_total : forall rs mx, max_roots P fixed ins mx rs <> None.
+  Proof. induction rs as [|r rest IH]; intro mx; cbn [max_roots]; [discriminate|].
+    destruct (fixed r) eqn:Hfx; [apply IH|]. destruct (ins r) eqn:Hi; [apply IH|]. now apply ins_total in Hfx. Qed.
+
+  Lemma max_groups_total : forall gs mx, max_groups P fixed ins pois mx gs <> None.
+  Proof. induction gs as [|[c es] r IH]; intro mx; cbn [max_groups]; [discriminate|].
+    unfold max_group. destruct (fixed c) eqn:Hfx; [apply IH|]. destruct es as [|e0 rest]; [apply IH|].
+    destruct (fold_left _ _ _) as [ypi result]. destruct (ins c) eqn:Hi; [apply IH|]. now apply ins_total in Hfx. Qed.
+
+  Lemma maximization_total n es : outside_maximization P fixed ins pois n es <> None.
+  Proof. unfold outside_maximization. destruct (max_roots P fixed ins (fun _ => 0%nat) (mrcas n es)) eqn:E.
+    - apply max_groups_total.
+    - now apply max_roots_total in E. Qed.
+End Total.
